@@ -248,6 +248,12 @@ def vectors(run):
         V.append(('_countifs', (col, f, target, f)))
         V.append(('_averageifs', (target, col, f)))
         V.append(('_sumifs', ([[1], [2]], col, f)))
+        # flat lists, as a hand-written subclass would pass them (the same list object may be passed again later)
+        flat = [x[0] for x in col]
+        V.append(('_sumifs', ([10, 20, 40], flat, f)))
+        V.append(('_averageifs', ([10, 20, 40], flat, f)))
+        V.append(('_countifs', (flat, f)))
+        V.append(('_sum_if', (flat, f, [10, 20, 40])))
     # C13 helpers and the rest
     for vals in ([True, 7, False, 9], [False, 7, True, 9], [False, 7, False, 9], [0, '#N/A', 1, 5], ['#N/A', 1, True, 2], [lambda: False, lambda: 1 / 0, lambda: True, lambda: 9],
                  [lambda: True, lambda: '#N/A'], [], [True]):
